@@ -97,7 +97,7 @@ class Patches:
         a, b = getattr(underlying(mine), "__code__", None), getattr(underlying(default), "__code__", None)
         if a is None or b is None:
             return False
-        return a.co_code == b.co_code and a.co_names == b.co_names and a.co_consts == b.co_consts
+        return a.co_code == b.co_code and a.co_names == b.co_names   # docstrings live in co_consts: ignored
 
     def _patch(self, cls, base, name, underlying):
         if any(c is cls and n == name for c, n, _h, _o in self.saved):
